@@ -143,7 +143,7 @@ func (x *Exec) binderValue(fr *Frame, li *LoopInfo, st *State, name string) (Val
 				if identName(i) == name && !i.IsAddr {
 					if _, ok := st.regs[i.X]; ok || isConstVal(i.X) {
 						if vi, ok := i.X.(ssa.Instruction); ok {
-							if vi.Block() != nil && vi.Block().Dominates(li.head) && (vi.Block() != li.head || isPhi(i.X)) {
+							if vi.Block() != nil && vi.Block().Dominates(li.head) && (vi.Block() != li.head || isPhi(i.X) || precedes(vi, li.at)) {
 								if best == nil || dominatesVal(best, i.X) {
 									best = i.X
 								}
@@ -179,6 +179,22 @@ func (x *Exec) binderValue(fr *Frame, li *LoopInfo, st *State, name string) (Val
 }
 
 func isPhi(v ssa.Value) bool { _, ok := v.(*ssa.Phi); return ok }
+
+// precedes: a comes before b in b's block (b == nil: no).
+func precedes(a, b ssa.Instruction) bool {
+	if a == nil || b == nil || a.Block() != b.Block() {
+		return false
+	}
+	for _, ins := range b.Block().Instrs {
+		if ins == a {
+			return true
+		}
+		if ins == b {
+			return false
+		}
+	}
+	return false
+}
 func isConstVal(v ssa.Value) bool {
 	_, ok := v.(*ssa.Const)
 	return ok
@@ -821,7 +837,16 @@ func (x *Exec) havocCall(fr *Frame, cm *calleeCtx, fn *ssa.Function, args []Valu
 // freshResult: an arbitrary result value (not recorded as a harness input).
 func (x *Exec) freshResult(name string, t types.Type) Value {
 	n := len(x.inputs)
-	v := x.freshValue(name, t, 4)
+	var v Value
+	if _, isPtr := t.Underlying().(*types.Pointer); isPtr && x.driver {
+		// driver level: the structure a callee returns (a decoded PDU) is looked at lazily
+		saved := x.lazy
+		x.lazy = true
+		v = x.freshValue(name, t, 1)
+		x.lazy = saved
+	} else {
+		v = x.freshValue(name, t, 4)
+	}
 	x.inputs = x.inputs[:n]
 	if iv, ok := v.(IfaceV); ok && types.Identical(t, errorType) {
 		iv.Tag = "opaque"
